@@ -281,6 +281,30 @@ pub fn run_seed(batch_seed: u64, id: &str, idx: u64) -> u64 {
 }
 
 thread_local! {
+    static TRACE: std::cell::RefCell<Option<Vec<String>>> = const { std::cell::RefCell::new(None) };
+}
+
+/// Records one line of the execution history of the current run; only active
+/// while the batch runner re-executes a sample case for the evidence file
+/// (never draws from the PRNG, never reads a clock).
+pub fn trace(f: impl FnOnce() -> String) {
+    TRACE.with(|t| {
+        if let Some(lines) = t.borrow_mut().as_mut() {
+            if lines.len() < 60 {
+                lines.push(f());
+            }
+        }
+    });
+}
+
+fn with_trace<T>(f: impl FnOnce() -> T) -> (T, Vec<String>) {
+    TRACE.with(|t| *t.borrow_mut() = Some(Vec::new()));
+    let r = f();
+    let lines = TRACE.with(|t| t.borrow_mut().take()).unwrap_or_default();
+    (r, lines)
+}
+
+thread_local! {
     static LAST_PANIC: std::cell::RefCell<Option<String>> = const { std::cell::RefCell::new(None) };
 }
 
@@ -386,7 +410,13 @@ pub fn run_batch<P: Prop>(p: &P, tier: Tier, seed: u64, nruns: u64) -> BatchResu
         let case = p.gen(&mut rng, tier, idx);
         let mut v = serde_json::to_value(&case).unwrap_or(Value::Null);
         truncate_value(&mut v);
-        samples.push(json!({"run": idx, "case": v}));
+        let (out, history) = with_trace(|| exec_guarded(p, &case));
+        samples.push(json!({
+            "run": idx,
+            "case": v,
+            "executions": out.execs,
+            "history_excerpt": history,
+        }));
     }
     BatchResult {
         agg,
